@@ -56,6 +56,11 @@ func init() {
 						if proto == "text" && cmd.Kind == "gat" {
 							cmd.Kind = "touch"
 						}
+						if cmd.Exptime >= 1 && cmd.Exptime <= 5 {
+							// the connections run against the wall clock for several seconds and each is
+							// judged at one fixed time: no lifetimes that can end during the run
+							cmd.Exptime += 100
+						}
 						if cfg.L1 == "batched" && (cmd.Kind == "gat" || cmd.Kind == "touch") {
 							cmd.Exptime = 0
 						}
